@@ -286,6 +286,19 @@ fn alphabet() -> Vec<String> {
     ] {
         push(&format!("{}{}", COOKIE_HEADER, tail));
     }
+    // what the crate's quoted-string grammar reads as one non-ASCII sequence (a lead character
+    // U+00C0..DF followed by a continuation character U+0080..BF) with a continuation that Unicode
+    // classes as white space (U+0085, U+00A0), at the end, at the start, inside quotes
+    for lead in ['\u{c2}', '\u{c3}', '\u{df}'] {
+        for cont in ['\u{85}', '\u{a0}', '\u{80}', '\u{bf}'] {
+            push(&format!("abc{}{}", lead, cont));
+            push(&format!("{}{}", lead, cont));
+            push(&format!("{}{}abc", lead, cont));
+            push(&format!("\"x{}{}\"", lead, cont));
+            push(&format!("{}{} ", lead, cont));
+            push(&format!("{}abc{}{}", COOKIE_HEADER, lead, cont));
+        }
+    }
     push("obMatJos");
     push("obMatJos\u{e9}");
     push("obMatJos\u{1f600}AAA");
@@ -1534,6 +1547,23 @@ fn sweep_agent(rec: &mut Rec, strs: &[String], rng: &mut StdRng, per_api: usize)
             let edge = if i == 0 { 0 } else { usize::MAX };
             if let Some(a) = zoo_attribute(rec, kind, rng, edge, &arg) {
                 pool.push((arg, a));
+            }
+        }
+    }
+    // attributes that only a decoder can produce: unregistered types (with and without their data)
+    for (i, with_data) in [false, true].into_iter().enumerate() {
+        let id = [9u8; 12];
+        let bytes = crate::obs::build(1, crate::obs::CLASS_SUCCESS, &id, &[
+            crate::obs::Item::Raw(0x7F21, vec![1, 2, 3]), crate::obs::Item::Raw(0xFF21, vec![]),
+        ]);
+        let mut cb = stun_rs::DecoderContextBuilder::default();
+        if with_data {
+            cb = cb.with_unknown_data();
+        }
+        let dec = stun_rs::MessageDecoderBuilder::default().with_context(cb.build()).build();
+        if let Some((m, _)) = rec.res("MessageDecoder::decode", &format!("unregistered types #{}", i), || dec.decode(&bytes)) {
+            for (j, a) in m.attributes().iter().enumerate() {
+                pool.push((format!("decoded unknown #{}.{}", i, j), a.clone()));
             }
         }
     }
